@@ -532,6 +532,48 @@ pub fn run(tier: Tier, _replay: Option<Value>) -> ! {
         }
         rep.set("quoted_glob_words", words.len() as u64);
     }
+    // ---- bracket expressions whose members are partly quoted / escaped IN THE SOURCE: a quoted `]`, `-`, `!`,
+    //      `^` or backslash inside `[...]` is an ordinary member, through every pattern context
+    {
+        let pats = [
+            "[a\"]\"]", "[a']']", "[\"]\"a]", "[\"]\"]", "[!\"]\"]", "[a\"]\"b]", "[a\\]]", "[\\]a]", "[!\\]]", "[a\"-\"c]", "[\"a\"-c]", "[\"!\"a]", "[\"^\"a]", "[a\"\\\\\"]", "[a\"$q\"]", "[a$q]", "[\"$q\"]*",
+            "*[\"]\"]", "[a\"]\"][b]",
+        ];
+        let mut scripts = vec![];
+        for p in pats {
+            let mut sc = String::from("q=']'\nfor s in a ']' b - '!' '^' '\\' 'a]' ']b' '' c 'ab' '[a]'; do\n");
+            sc.push_str(&format!("if [[ $s == {p} ]]; then m=1; else m=0; fi\ncase $s in {p}) k=1;; *) k=0;; esac\n"));
+            sc.push_str(&format!("echo \"[$s] t=$m c=$k #=[${{s#{p}}}] %=[${{s%{p}}}] /=[${{s/{p}/X}}] //=[${{s//{p}/X}}]\"\ndone\n"));
+            sc.push_str(&format!("cd g && vargs {p}\n"));
+            scripts.push(sc);
+        }
+        let files = json!({"g/a": "", "g/]": "", "g/b": "", "g/-": "", "g/!": "", "g/^": "", "g/a]": "", "g/c": ""});
+        let jb: Vec<Value> = scripts.iter().map(|s| json!({"s": s, "files": files})).collect();
+        let bb = common::run_scripts(&jb, 20_000);
+        let specs: Vec<crate::engine::procs::ProcSpec> = scripts
+            .iter()
+            .map(|sc| {
+                let mk = "mkdir -p g; for n in a ']' b - '!' '^' 'a]' c; do : > \"g/$n\"; done\n";
+                let mut sp = bash::spec_file(bash::BASH, &format!("{}{mk}{sc}", bash::BASH_VARGS), 20_000);
+                sp.env.push(("PATH".into(), "/usr/bin:/bin".into()));
+                sp
+            })
+            .collect();
+        let ob = crate::engine::procs::run_many(&specs, bash::procs_par());
+        for (i, p) in pats.iter().enumerate() {
+            rep.evaluations += 1;
+            let want = ob[i].out_str();
+            let got = bb[i].crash.clone().map(|c| format!("CRASH {c}")).unwrap_or_else(|| bb[i].out.clone());
+            rep.nontrivial.insert(format!("qbracket|{p}"));
+            if got != want {
+                // one failure per differing line, so that a finding can name the context
+                let (gl, wl): (Vec<&str>, Vec<&str>) = (got.lines().collect(), want.lines().collect());
+                let k = gl.iter().zip(wl.iter()).position(|(a, b)| a != b).unwrap_or(gl.len().min(wl.len()));
+                rep.fail(Failure { case: format!("source pattern {p} (first difference at output line {k})"), tags: vec!["quoted-bracket-member".into(), format!("pat:{p}")], expected: wl.get(k).unwrap_or(&"<eof>").to_string(), observed: gl.get(k).unwrap_or(&"<eof>").replace('\0', "␀"), oracle: "bash".into() });
+            }
+        }
+        rep.set("quoted_bracket_patterns", pats.len() as u64);
+    }
     rep.set("glob_trees", trees.len() as u64);
     rep.set("glob_patterns", gp.len() as u64);
     rep.rule = format!(
